@@ -52,6 +52,9 @@ class Fact:
         l, r = sk(l), sk(r)
         if cval(l) is not None and cval(r) is None:
             l, r, op = r, l, FLIP[op]
+        if cval(r) is not None and r.get("k") != "Int":
+            # a constant expression (sizeof(a[i]), FOO - 2): its operands do not matter
+            r = {"k": "Int", "v": cval(r), "t": r.get("t") or INT_T}
         self.op, self.l, self.r = op, l, r
         self.key = (pp(l), op, pp(r) if cval(r) is None else cval(r))
         self.vars = set()
